@@ -200,6 +200,10 @@ class TLV:
                     result.append(0)
                 else:
                     raise ValueError("Separator must not have data")
+            elif len(value) == 0:
+                # a zero length item is encoded as type + length 0
+                result.append(key)
+                result.append(0)
 
             while len(value) > 0:
                 result.append(key)
